@@ -174,17 +174,37 @@ theorem c03_fj_formula (a : List (List K)) :
   rw [fj_eq, total_eq]
 
 /-- **Zero yields are fine**: a source may have zero yield in a dataset (`hnn` of `c03_fj_nonneg`
-is `≤`), and a dataset in which *no* source has any yield gets `f_j = 0`, its stacked ratios are
-the (zero) numerators — no `0/0` — and it contributes exactly `0` to `log Λ`. -/
-theorem c03_zero_yield_ok (a : List (List K)) (r : List K) (hr : ∀ x ∈ r, x = 0) :
-    r.sum / total a = 0 ∧
-    ∀ (Rk : List (List K)) (n : ℕ), ratioWeighted r Rk n = weightedSums r Rk n := by
+is `≤`), and a dataset `r ∈ a` in which *no* source has any yield gets `f_j = 0` (total non-zero,
+so this is not `0/0`), its stacked ratios are computed without any division and are all `0`, and
+(`c03_zero_yield_contributes_zero`, `c03_zero_row_contribution`) it contributes exactly `0` to `log Λ`. -/
+theorem c03_zero_yield_ok (a : List (List K)) (r : List K) (hra : r ∈ a) (ht : total a ≠ 0)
+    (hr : ∀ x ∈ r, x = 0) :
+    (r.sum / total a ∈ fj a ∧ r.sum / total a = 0) ∧
+    ∀ (Rk : List (List K)) (n : ℕ), C03.Rect r Rk n →
+      ratioWeighted r Rk n = List.replicate n 0 := by
   have hs : r.sum = 0 := List.sum_eq_zero hr
-  refine ⟨by rw [hs, zero_div], ?_⟩
-  intro Rk n
-  unfold ratioWeighted
-  rw [sumF_eq_sum, hs]
-  simp
+  refine ⟨⟨?_, by rw [hs, zero_div]⟩, ?_⟩
+  · rw [fj_eq]; exact List.mem_map.mpr ⟨r, hra, rfl⟩
+  · intro Rk n hrect
+    have hw : ratioWeighted r Rk n = weightedSums r Rk n := by
+      unfold ratioWeighted
+      rw [sumF_eq_sum, hs]
+      simp
+    rw [hw]
+    obtain ⟨h1, h2⟩ := weightedSums_spec r Rk n hrect
+    apply ext_getD n h1 (by simp)
+    intro i hi
+    rw [h2 i hi, List.getD_replicate _ hi]
+    apply List.sum_eq_zero
+    intro x hx
+    obtain ⟨p, hp, rfl⟩ := List.mem_map.mp hx
+    rw [hr p.1 (List.of_mem_zip hp).1, zero_mul]
+
+/-- `f_j` is a number (not the `0/0` of the code) exactly when the total is non-zero. -/
+theorem c03_fjOpt_some_iff [DecidableEq K] (a : List (List K)) :
+    fjOpt a = some (fj a) ↔ total a ≠ 0 := by
+  unfold fjOpt
+  by_cases h : total a = 0 <;> simp [h]
 
 theorem c03_zero_yield_contributes_zero (opa : ℝ) (h1 : opa < 1) (ns : ℝ) (N : ℕ) (Xs : List ℝ) :
     LLH.llr opa N (ns * 0) Xs = 0 := by
@@ -284,7 +304,7 @@ theorem c03_perm_sources {S S' : List (K × List K)} (h : S.Perm S') (n : ℕ)
 
 /-! ### Invariance under a common factor on the source weights -/
 
-/-- **Scale invariance of `f_j`**: multiplying every `W_k` by the same `c ≠ 0`. -/
+/-- **Scale invariance of `f_j`**: multiplying every `W_k` by the same `c > 0` (the proof only uses `c ≠ 0`). -/
 theorem c03_scale_invariance (c : K) (hc : 0 < c) (W : List K) (Y : List (List K)) :
     fj (ajk (W.map (c * ·)) Y) = fj (ajk W Y) := by
   have hc0 : c ≠ 0 := ne_of_gt hc
@@ -378,7 +398,7 @@ theorem c03_scale_invariance_llr (opa ns c : ℝ) (hc : 0 < c) (W : List ℝ) (Y
     (ds : List (Dataset ℝ))
     (hgood : ∀ p ∈ List.zip (ajk W Y) ds, C03.Rect p.1 p.2.Rk p.2.nSel ∧ sumF p.1 ≠ 0) :
     stackedLLR opa ns (W.map (c * ·)) Y ds = stackedLLR opa ns W Y ds := by
-  unfold stackedLLR evalWith
+  unfold stackedLLR evalWith datasetsOf
   rw [c03_scale_invariance c hc, ajk_scale, List.zip_map_left, List.map_map]
   congr 1
   apply List.map_congr_left
@@ -447,33 +467,121 @@ theorem c03_weighted_formula (opa ns : ℝ) (N : ℕ) (ak : List ℝ) (Rk : List
   rw [c03_weighted_mean_list ak Rk n hr hA, c01_eq_documented_formula]
 
 /-- **No dependence on history** (refinement of the stateless specification by the object graph with
-its caches): whatever was evaluated before, whoever recalculated the shared weight services in
-between, and however often the sources were changed in place and propagated with `change_shg_mgr`,
-every `evaluate(p, ns)` returns the stateless value `stackedLLR` at the yields of *its own*
-parameters and the source weights *currently* in the manager — for every coherent start state
-(cached weights = manager's weights, as after construction; `a_jk` content arbitrary). -/
-theorem c03_eval_history_independent {P : Type} (opa : ℝ) (Yof : P → List (List ℝ))
+its caches).  The body of `evaluate` reads only the cached `f_j` and `a_jk`; because `evaluate` first
+recalculates both services at its own parameters, and `change_shg_mgr` re-creates the cached source
+weights, every `evaluate(p, ns)` of every history of user operations returns the stateless value
+`stackedLLR` at the yields of *its own* parameters and the source weights *currently* in the manager —
+for every start state whose weight cache is coherent (`Wc = W`, as after construction); the cached
+`a_jk` and `f_j` of the start state are arbitrary (stale). -/
+theorem c03_eval_refines {P : Type} (opa : ℝ) (Yof : P → List (List ℝ))
     (ds : List (Dataset ℝ)) (st : SvcState ℝ) (hco : st.Wc = st.W) (ops : List (SvcOp P ℝ)) :
     svcRun opa Yof ds st ops = svcSpec opa Yof ds st.W ops := by
+  unfold svcRun
   induction ops generalizing st with
   | nil => rfl
   | cons op rest ih =>
     cases op with
     | recalc p =>
-      simp only [svcRun, svcStep, svcSpec]
+      simp only [List.flatMap_cons, expand, List.cons_append, List.nil_append, lowRun, lowStep,
+        svcSpec]
       exact ih _ hco
     | eval p ns =>
-      simp only [svcRun, svcStep, svcSpec, stackedLLR, hco]
-      rw [ih { W := st.W, Wc := st.W, a := ajk st.W (Yof p) } rfl]
+      simp only [List.flatMap_cons, expand, List.cons_append, List.nil_append, lowRun, lowStep,
+        svcSpec, stackedLLR, evalWith, hco]
+      rw [ih { W := st.W, Wc := st.W, a := ajk st.W (Yof p), f := fj (ajk st.W (Yof p)) } rfl]
     | changeSources W' =>
-      simp only [svcRun, svcStep, svcSpec]
+      simp only [List.flatMap_cons, expand, List.cons_append, List.nil_append, lowRun, lowStep,
+        svcSpec]
       exact ih _ rfl
 
-/-- in particular: the first evaluation after an in-place change of the sources uses the new weights -/
+/-- The body of `evaluate` really depends on the cached state: run alone it returns the value for
+whatever `f_j`, `a_jk` the services hold (this is where a guard around the recalculation, or a
+second consumer of the shared services, makes the result depend on history). -/
+theorem c03_evalBody_reads_state {P : Type} (opa ns : ℝ) (Yof : P → List (List ℝ))
+    (ds : List (Dataset ℝ)) (st : SvcState ℝ) :
+    lowRun opa Yof ds st [(.evalBody ns : LowOp P ℝ)] = [llrMulti opa ns st.f (datasetsOf st.a ds)] := rfl
+
+/-- … e.g. after a foreign recalculation at `q` the body alone returns the value at `q`, not at
+the caller's `p` -/
+theorem c03_evalBody_after_foreign_recalc {P : Type} (opa ns : ℝ) (Yof : P → List (List ℝ))
+    (ds : List (Dataset ℝ)) (st : SvcState ℝ) (q : P) :
+    lowRun opa Yof ds st [.calcA q, .calcF, .evalBody ns] = [stackedLLR opa ns st.Wc (Yof q) ds] := by
+  simp [lowRun, lowStep, stackedLLR, evalWith]
+
+/-- The documented-by-proof actual behaviour when the sources are changed but `change_shg_mgr` is not
+called: `calculate` keeps using the cached weights. -/
+theorem c03_stale_without_change_shg_mgr {P : Type} (opa ns : ℝ) (Yof : P → List (List ℝ))
+    (ds : List (Dataset ℝ)) (st : SvcState ℝ) (W' : List ℝ) (p : P) :
+    lowRun opa Yof ds st [.setWeights W', .calcA p, .calcF, .evalBody ns]
+      = [stackedLLR opa ns st.Wc (Yof p) ds] := by
+  simp [lowRun, lowStep, stackedLLR, evalWith]
+
+/-- in particular: the first evaluation after an in-place change of the sources that *was*
+propagated uses the new weights -/
 theorem c03_eval_after_change_sources {P : Type} (opa ns : ℝ) (Yof : P → List (List ℝ))
     (ds : List (Dataset ℝ)) (st : SvcState ℝ) (W' : List ℝ) (p : P) :
     svcRun opa Yof ds st [.changeSources W', .eval p ns] = [stackedLLR opa ns W' (Yof p) ds] := by
-  simp [svcRun, svcStep, stackedLLR]
+  simp [svcRun, expand, lowRun, lowStep, stackedLLR, evalWith]
+
+/-! ### Permutations at the level of the whole pipeline -/
+
+/-- **Datasets permuted, consistently**: each weight factor travels with its row. -/
+theorem c03_perm_datasets_fj_rows {K : Type} [Field K] [LinearOrder K] [IsStrictOrderedRing K]
+    {a a' : List (List K)} (h : a.Perm a') :
+    (List.zip a (fj a)).Perm (List.zip a' (fj a')) := by
+  have ht : total a = total a' := by
+    rw [C03.total_eq, C03.total_eq]; exact (h.map _).sum_eq
+  have hz : ∀ b : List (List K), List.zip b (fj b) = b.map (fun r => (r, r.sum / total b)) := by
+    intro b
+    rw [C03.fj_eq]
+    have := C03.zip_map_same b id (fun r => r.sum / total b)
+    simpa using this
+  rw [hz, hz, ht]
+  exact h.map _
+
+/-- **Datasets permuted** (yield row and dataset together), whole pipeline: `log Λ` is unchanged. -/
+theorem c03_perm_datasets_llr (opa ns : ℝ) (W : List ℝ) {D D' : List (List ℝ × Dataset ℝ)}
+    (h : D.Perm D') :
+    stackedLLR opa ns W (D.map Prod.fst) (D.map Prod.snd)
+      = stackedLLR opa ns W (D'.map Prod.fst) (D'.map Prod.snd) := by
+  have ha : ∀ E : List (List ℝ × Dataset ℝ),
+      ajk W (E.map Prod.fst) = E.map (fun d => List.zipWith (· * ·) W d.1) := by
+    intro E; unfold ajk; rw [List.map_map]; rfl
+  have ht : total (ajk W (D.map Prod.fst)) = total (ajk W (D'.map Prod.fst)) := by
+    rw [ha, ha, C03.total_eq, C03.total_eq]; exact ((h.map _).map _).sum_eq
+  unfold stackedLLR evalWith datasetsOf
+  rw [c03_multi_additive, c03_multi_additive, C03.fj_eq, C03.fj_eq, ht, ha, ha]
+  simp only [List.map_map, C03.zip_map_same]
+  exact (h.map _).sum_eq
+
+/-- **Sources permuted** (weight, yield in this dataset and ratio list of a source together): the
+single-dataset value is unchanged. -/
+theorem c03_perm_sources_llr (opa ns : ℝ) (N n : ℕ) {S S' : List (ℝ × ℝ × List ℝ)} (h : S.Perm S')
+    (hrect : ∀ s ∈ S, s.2.2.length = n)
+    (hA : sumF (S.map (fun s => s.1 * s.2.1)) ≠ 0) :
+    LLH.llrOfRatios opa N ns (ratioWeighted (S.map (fun s => s.1 * s.2.1)) (S.map (fun s => s.2.2)) n)
+      = LLH.llrOfRatios opa N ns
+          (ratioWeighted (S'.map (fun s => s.1 * s.2.1)) (S'.map (fun s => s.2.2)) n) := by
+  have hp : (S.map (fun s => (s.1 * s.2.1, s.2.2))).Perm (S'.map (fun s => (s.1 * s.2.1, s.2.2))) :=
+    h.map _
+  have := c03_perm_sources hp n (by
+    intro p hp'
+    obtain ⟨s, hs, rfl⟩ := List.mem_map.mp hp'
+    exact hrect s hs) (by rw [List.map_map]; exact hA)
+  simp only [List.map_map] at this
+  have e1 : ∀ T : List (ℝ × ℝ × List ℝ),
+      (Prod.fst ∘ fun s : ℝ × ℝ × List ℝ => (s.1 * s.2.1, s.2.2)) = fun s => s.1 * s.2.1 := fun _ => rfl
+  have e2 : (Prod.snd ∘ fun s : ℝ × ℝ × List ℝ => (s.1 * s.2.1, s.2.2)) = fun s => s.2.2 := rfl
+  rw [e1 S, e2] at this
+  rw [this]
+
+/-- A dataset without any yield can be left out: with `f_j = 0` it contributes `llr(ns·0) = 0`
+(theorem `c01_zero_at_ns0`), whatever its events are. -/
+theorem c03_zero_row_contribution (opa : ℝ) (h1 : opa < 1) (ns : ℝ) (a : List (List ℝ)) (z : List ℝ)
+    (hz : ∀ x ∈ z, x = 0) (N : ℕ) (Xs : List ℝ) :
+    LLH.llr opa N (ns * (z.sum / total a)) Xs = 0 := by
+  rw [List.sum_eq_zero hz, zero_div, mul_zero]
+  exact c01_zero_at_ns0 opa h1 N Xs
 
 /-! ### non-vacuity -/
 
@@ -495,3 +603,19 @@ example : sliceBounds [2, 1, 3] = [(0, 2), (2, 3), (3, 6)] := by decide
 -- hypotheses of `c03_calc_row_full`: groups of sizes 2 and 1 fill a row of length 3
 example : calcRow ([7, 7, 7] : List ℚ) [([1, 2], [3, 4]), ([5], [6])] = [3, 8, 30] := by
   norm_num [calcRow, setSlice, List.zipWith]
+-- the behaviour for a negative total weight (guard `A != 0`): still the weighted mean
+example : ratioWeighted ([-1, -3] : List ℚ) [[2, 4], [6, 8]] 2 = [5, 7] := by
+  norm_num [ratioWeighted, weightedSums, addSource, sumF, List.zipWith, List.replicate]
+-- hypotheses of `c03_perm_sources` / `c03_perm_sources_llr`: two sources, rectangular, non-zero weight sum
+example : (∀ s ∈ ([(1, 2, [1, 2]), (3, 1, [0, 5])] : List (ℝ × ℝ × List ℝ)), s.2.2.length = 2) ∧
+    sumF (([(1, 2, [1, 2]), (3, 1, [0, 5])] : List (ℝ × ℝ × List ℝ)).map (fun s => s.1 * s.2.1)) ≠ 0 := by
+  refine ⟨?_, by norm_num [sumF]⟩
+  intro s hs; simp at hs; rcases hs with rfl | rfl <;> rfl
+-- hypotheses of `c03_zero_yield_ok`: an all-zero dataset inside a table with non-zero total
+example : ([0, 0] : List ℚ) ∈ ([[1, 0], [0, 0], [2, 3]] : List (List ℚ)) ∧
+    total ([[1, 0], [0, 0], [2, 3]] : List (List ℚ)) ≠ 0 ∧ C03.Rect ([0, 0] : List ℚ) [[1, 2], [3, 4]] 2 := by
+  refine ⟨by simp, by norm_num [total, sumF], ⟨rfl, ?_⟩⟩
+  intro r hr; simp at hr; rcases hr with rfl | rfl <;> rfl
+-- a coherent start state with stale caches (hypothesis of `c03_eval_refines`)
+example : ({ W := [1, 2], Wc := [1, 2], a := [[9, 9]], f := [7] } : SvcState ℝ).Wc
+    = ({ W := [1, 2], Wc := [1, 2], a := [[9, 9]], f := [7] } : SvcState ℝ).W := rfl
